@@ -8,8 +8,19 @@ composition (soundness), every composition is an element (completeness), no elem
 repeated, the list is in strict lexicographic order, and its length is the stars-and-bars
 number `C(n + k - 1, k - 1)`.
 Helper lemmas: Lemmas/Slots.lean.
+
+C20 (non-combinatorial part) — Aitchison geometry and pmf operations (second half of the file).
+Theorems about Core/Aitchison.lean: `closure`/`perturbation`/`powering` return normalised
+compositions; `clr`/`alr`/`ilr` are inverted by `clrInv`/`alrInv`/`ilrInv` on strictly positive
+compositions (and the other way round on coordinate vectors); the rows of `ubasis` are
+orthonormal and sum to zero; `ilr` is an isometry from the Aitchison geometry to Euclidean space;
+`ilrInv` maps every real vector into the open simplex; `convexCombination`, `replaceZeros`,
+`downsample` return normalised non-negative vectors (mixture, zeros filled, snapped to the grid).
+The transcendental operations are instantiated at `ℝ` by `realA` (`log₂`, `2^·`, `√`, `rpow`).
+Helper lemmas: Lemmas/Aitchison.lean.
 -/
 import DitModel.Lemmas.Slots
+import DitModel.Lemmas.Aitchison
 
 set_option linter.unusedSectionVars false
 
@@ -94,6 +105,290 @@ example : [1, 0, 3].length = 3 ∧ [1, 0, 3].sum = 4 ∧ [1, 0, 3] ∈ simplexGr
   decide +kernel
 /-- `slots_length` at `n = 4`, `k = 3`: `C(6, 2) = 15` compositions. -/
 example : 1 ≤ 3 ∧ (slots 4 3).length = 15 ∧ Nat.choose (4 + 3 - 1) (3 - 1) = 15 := by
+  decide +kernel
+
+/-! ## Aitchison geometry and pmf operations (non-combinatorial part of C20) -/
+
+open Dit.Lemmas.Aitchison (realA)
+
+/-! ### `closure`, `perturbation`, `powering` -/
+
+section ClosureField
+variable {α : Type} [Field α]
+
+/-- **Closure normalises.** Over any field, the closure of a vector with non-zero total sums
+to 1. (`x.sum ≠ 0` is needed: the closure of `[1, -1]` is `[0, 0]` in a field with `a/0 = 0`.) -/
+theorem closure_sum_one (x : List α) (h : x.sum ≠ 0) : (closure x).sum = 1 :=
+  Lemmas.Aitchison.closure_sum x h
+
+/-- **Closure fixes compositions.** A vector that already sums to 1 is unchanged. -/
+theorem closure_of_sum_one (x : List α) (h : x.sum = 1) : closure x = x :=
+  Lemmas.Aitchison.closure_of_sum_one x h
+
+/-- **Closure is idempotent** (for every vector, also one of total zero). -/
+theorem closure_idem (x : List α) : closure (closure x) = closure x :=
+  Lemmas.Aitchison.closure_idem x
+
+end ClosureField
+
+section ClosureOrdered
+variable {α : Type} [Field α] [LinearOrder α] [IsStrictOrderedRing α]
+
+/-- **Closure keeps positivity** (and the length): the closure of a strictly positive vector is
+strictly positive. -/
+theorem closure_pos (x : List α) (h : ∀ v ∈ x, 0 < v) :
+    (closure x).length = x.length ∧ ∀ v ∈ closure x, 0 < v :=
+  ⟨Lemmas.Aitchison.closure_length x, Lemmas.Aitchison.closure_pos h⟩
+
+/-- **Perturbation is closed on the open simplex.** For strictly positive vectors of equal
+non-zero length the result has the same length, strictly positive entries, and sums to 1.
+(`x ≠ []` is needed for the total to be non-zero.) -/
+theorem perturbation_closed (x y : List α) (hne : x ≠ []) (hlen : x.length = y.length)
+    (hx : ∀ v ∈ x, 0 < v) (hy : ∀ v ∈ y, 0 < v) :
+    (perturbation x y).length = x.length ∧ (∀ v ∈ perturbation x y, 0 < v) ∧
+      (perturbation x y).sum = 1 :=
+  Lemmas.Aitchison.perturbation_simplex hne hlen hx hy
+
+end ClosureOrdered
+
+/-- **Powering is closed on the open simplex**, for every real exponent. -/
+theorem powering_closed (x : List ℝ) (a : ℝ) (hne : x ≠ []) (hx : ∀ v ∈ x, 0 < v) :
+    (powering realA x a).length = x.length ∧ (∀ v ∈ powering realA x a, 0 < v) ∧
+      (powering realA x a).sum = 1 :=
+  Lemmas.Aitchison.powering_simplex hne hx a
+
+/-! ### `clr` and `alr` -/
+
+/-- **clr coordinates sum to zero**, for every input vector. -/
+theorem clr_sum_zero (x : List ℝ) : (clr realA x).sum = 0 ∧ (clr realA x).length = x.length :=
+  ⟨Lemmas.Aitchison.clr_sum x, Lemmas.Aitchison.clr_length x⟩
+
+/-- **`clr_inv ∘ clr`** is the closure on strictly positive vectors, hence the identity on
+strictly positive compositions. -/
+theorem clrInv_clr (x : List ℝ) (hx : ∀ v ∈ x, 0 < v) :
+    clrInv realA (clr realA x) = closure x ∧ (x.sum = 1 → clrInv realA (clr realA x) = x) := by
+  have h := Lemmas.Aitchison.clrInv_clr x hx
+  exact ⟨h, fun h1 => h.trans (Lemmas.Aitchison.closure_of_sum_one x h1)⟩
+
+/-- **`clr ∘ clr_inv`** is the identity on the coordinate vectors of clr, i.e. the vectors that
+sum to zero. (Needed: `clr` of anything sums to zero.) -/
+theorem clr_clrInv (y : List ℝ) (hy : y.sum = 0) : clr realA (clrInv realA y) = y :=
+  Lemmas.Aitchison.clr_clrInv y hy
+
+/-- **`alr_inv ∘ alr`** is the closure on non-empty strictly positive vectors, hence the identity
+on strictly positive compositions. -/
+theorem alrInv_alr (x : List ℝ) (hne : x ≠ []) (hx : ∀ v ∈ x, 0 < v) :
+    alrInv realA (alr realA x) = closure x ∧ (x.sum = 1 → alrInv realA (alr realA x) = x) := by
+  have h := Lemmas.Aitchison.alrInv_alr x hne hx
+  exact ⟨h, fun h1 => h.trans (Lemmas.Aitchison.closure_of_sum_one x h1)⟩
+
+/-- **`alr ∘ alr_inv`** is the identity on every real vector. -/
+theorem alr_alrInv (y : List ℝ) : alr realA (alrInv realA y) = y :=
+  Lemmas.Aitchison.alr_alrInv y
+
+/-! ### The basis `ubasis` and `ilr` -/
+
+/-- **Orthonormal rows.** Rows `1..n` of `ubasis(n)` (vectors of length `n+1`) are orthonormal
+for the Euclidean inner product. -/
+theorem ubasis_orthonormal (n i i' : Nat) (hi : 1 ≤ i) (hin : i ≤ n) (hi' : 1 ≤ i') (hin' : i' ≤ n) :
+    dot (ubasisRow realA n i) (ubasisRow realA n i') = if i = i' then 1 else 0 :=
+  Lemmas.Aitchison.ubasis_orthonormal n i i' hi hin hi' hin'
+
+/-- **Rows sum to zero**: each row of `ubasis(n)` is a clr vector. -/
+theorem ubasis_sum_zero (n i : Nat) (hi : 1 ≤ i) (hin : i ≤ n) :
+    (ubasisRow realA n i).sum = 0 ∧ (ubasisRow realA n i).length = n + 1 :=
+  ⟨Lemmas.Aitchison.ubasis_sum_zero n i hi hin, by simp [ubasisRow]⟩
+
+/-- **ilr coordinates.** Coordinate `k` of `ilr x` is the Euclidean inner product of `clr x`
+with row `k+1` of `ubasis`. -/
+theorem ilr_eq_dot (x : List ℝ) :
+    ilr realA x = (List.range (x.length - 1)).map (fun k =>
+      dot (clr realA x) (ubasisRow realA (x.length - 1) (k + 1))) :=
+  Lemmas.Aitchison.ilr_eq_dot x
+
+/-- **Expansion in the basis.** `clr x = Σ_k ilr(x)_k · u_k`: the linear combination formed by
+`ilr_inv` from the ilr coordinates of `x` is `clr x`. -/
+theorem clr_eq_sum_ilr (x : List ℝ) (hne : x ≠ []) :
+    (List.range ((ilr realA x).length + 1)).map (fun j =>
+      lsum ((List.range (ilr realA x).length).map (fun k =>
+        (ilr realA x).getD k 0 * (ubasisRow realA (ilr realA x).length (k + 1)).getD j 0)))
+      = clr realA x := by
+  rw [Lemmas.Aitchison.ilrInv_arg_eq]
+  exact Lemmas.Aitchison.sum_ilr_ubasis x hne
+
+/-- **`ilr_inv ∘ ilr`** is the closure on non-empty strictly positive vectors (any number of
+components), hence the identity on strictly positive compositions. -/
+theorem ilrInv_ilr (x : List ℝ) (hne : x ≠ []) (hx : ∀ v ∈ x, 0 < v) :
+    ilrInv realA (ilr realA x) = closure x ∧ (x.sum = 1 → ilrInv realA (ilr realA x) = x) := by
+  have h := Lemmas.Aitchison.ilrInv_ilr x hne hx
+  exact ⟨h, fun h1 => h.trans (Lemmas.Aitchison.closure_of_sum_one x h1)⟩
+
+/-- **`ilr ∘ ilr_inv`** is the identity on every real vector (any dimension). -/
+theorem ilr_ilrInv (y : List ℝ) : ilr realA (ilrInv realA y) = y :=
+  Lemmas.Aitchison.ilr_ilrInv y
+
+/-- **`ilr_inv` lands in the open simplex.** For every real vector `y`, `ilr_inv y` has
+`y.length + 1` strictly positive entries that sum to 1 (the postcondition `perturb_support`
+relies on). -/
+theorem ilrInv_simplex (y : List ℝ) :
+    (ilrInv realA y).length = y.length + 1 ∧ (∀ v ∈ ilrInv realA y, 0 < v) ∧
+      (ilrInv realA y).sum = 1 :=
+  Lemmas.Aitchison.ilrInv_simplex y
+
+/-! ### Isometry -/
+
+/-- **clr is additive**: `clr (x ⊕ y) = clr x + clr y` on strictly positive vectors. -/
+theorem clr_perturbation (x y : List ℝ) (hne : x ≠ []) (hlen : x.length = y.length)
+    (hx : ∀ v ∈ x, 0 < v) (hy : ∀ v ∈ y, 0 < v) :
+    clr realA (perturbation x y) = List.zipWith (· + ·) (clr realA x) (clr realA y) :=
+  Lemmas.Aitchison.clr_perturbation x y hne hlen hx hy
+
+/-- **clr is homogeneous**: `clr (a ⊙ x) = a · clr x` on strictly positive vectors. -/
+theorem clr_powering (x : List ℝ) (a : ℝ) (hne : x ≠ []) (hx : ∀ v ∈ x, 0 < v) :
+    clr realA (powering realA x a) = (clr realA x).map (a * ·) :=
+  Lemmas.Aitchison.clr_powering x a hne hx
+
+/-- **ilr preserves the inner product**: the Aitchison inner product of two vectors of equal
+length is the Euclidean inner product of their ilr coordinates. -/
+theorem ilr_isometry (x y : List ℝ) (hlen : x.length = y.length) :
+    ainner realA x y = dot (ilr realA x) (ilr realA y) :=
+  Lemmas.Aitchison.ainner_eq_dot_ilr x y hlen
+
+/-- **ilr is an isometry**: ilr turns `x ⊖ y` into the difference of coordinates, and the
+Aitchison distance is the Euclidean distance of the ilr coordinates. -/
+theorem ilr_isometry_dist (x y : List ℝ) (hne : x ≠ []) (hlen : x.length = y.length)
+    (hx : ∀ v ∈ x, 0 < v) (hy : ∀ v ∈ y, 0 < v) :
+    ilr realA (perturbation x (powering realA y (-1)))
+        = List.zipWith (· - ·) (ilr realA x) (ilr realA y) ∧
+    adist realA x y = Real.sqrt (dot (List.zipWith (· - ·) (ilr realA x) (ilr realA y))
+      (List.zipWith (· - ·) (ilr realA x) (ilr realA y))) :=
+  ⟨Lemmas.Aitchison.ilr_sub x y hne hlen hx hy, Lemmas.Aitchison.adist_eq x y hne hlen hx hy⟩
+
+/-! ### `convexCombination`, `replaceZeros`, `downsample` -/
+
+section PmfOps
+variable {α : Type} [Field α] [LinearOrder α] [IsStrictOrderedRing α]
+
+/-- **Convex combination.** For as many non-negative weights (of positive total) as pmfs, the
+pmfs having `N` non-negative entries summing to 1 each: the result has `N` non-negative entries
+summing to 1, and entry `j` is `Σ_i (w_i / Σw) · p_i[j]`. (Equal numbers of pmfs and weights are
+needed: `zipWith` silently drops surplus weights after normalising them.) -/
+theorem convex_spec (pmfs : List (List α)) (w : List α) (N : Nat)
+    (hne : pmfs ≠ []) (hlen : pmfs.length = w.length)
+    (hw : ∀ v ∈ w, 0 ≤ v) (hws : 0 < w.sum)
+    (hN : ∀ pm ∈ pmfs, pm.length = N) (hnn : ∀ pm ∈ pmfs, ∀ v ∈ pm, 0 ≤ v)
+    (h1 : ∀ pm ∈ pmfs, pm.sum = 1) :
+    (convexCombination pmfs w).length = N ∧ (∀ v ∈ convexCombination pmfs w, 0 ≤ v) ∧
+      (convexCombination pmfs w).sum = 1 ∧
+      ∀ j, j < N → (convexCombination pmfs w).getD j 0
+        = (List.zipWith (fun pm wi => wi / w.sum * pm.getD j 0) pmfs w).sum := by
+  cases pmfs with
+  | nil => exact absurd rfl hne
+  | cons p ps =>
+    have hp : p.length = N := hN p (by simp)
+    refine ⟨?_, Lemmas.Aitchison.convex_nonneg p ps w hw hnn, ?_, ?_⟩
+    · rw [Lemmas.Aitchison.convex_cons]; simp [hp]
+    · exact Lemmas.Aitchison.convex_sum p ps w (ne_of_gt hws) hlen
+        (fun pm hpm => by rw [hN pm hpm, hp]) h1
+    · intro j hj
+      exact Lemmas.Aitchison.convex_getD p ps w j (by omega)
+
+/-- **Replacing zeros.** Given at least as many replacement values as `pmf` has zeros: the
+length is kept; the `i`-th zero entry becomes the `i`-th replacement and every other entry is
+multiplied by `1 − Σ used`; the total becomes `Σ used + (Σ pmf)(1 − Σ used)`, which is 1 for a
+normalised `pmf`. -/
+theorem replaceZeros_spec (pmf repl : List α)
+    (hlen : (pmf.filter (· == 0)).length ≤ repl.length) :
+    (replaceZeros pmf repl).length = pmf.length ∧
+    (∀ j, j < pmf.length → (replaceZeros pmf repl).getD j 0 =
+      if pmf.getD j 0 = 0 then repl.getD ((pmf.take j).filter (· == 0)).length 0
+      else pmf.getD j 0 * (1 - (repl.take (pmf.filter (· == 0)).length).sum)) ∧
+    (replaceZeros pmf repl).sum = (repl.take (pmf.filter (· == 0)).length).sum
+      + pmf.sum * (1 - (repl.take (pmf.filter (· == 0)).length).sum) ∧
+    (pmf.sum = 1 → (replaceZeros pmf repl).sum = 1) := by
+  have hul : (repl.take (Lemmas.Aitchison.zc pmf)).length = Lemmas.Aitchison.zc pmf := by
+    rw [List.length_take]; exact Nat.min_eq_left hlen
+  have hsum := Lemmas.Aitchison.rzSpec_sum (1 - (repl.take (Lemmas.Aitchison.zc pmf)).sum) pmf
+    (repl.take (Lemmas.Aitchison.zc pmf)) hul
+  rw [Lemmas.Aitchison.replaceZeros_eq]
+  refine ⟨Lemmas.Aitchison.rzSpec_length _ _ _, ?_, hsum, ?_⟩
+  · intro j hj
+    rw [Lemmas.Aitchison.rzSpec_getD _ pmf _ (le_of_eq hul.symm) j hj]
+    by_cases h0 : pmf.getD j 0 = 0
+    · have hlt := Lemmas.Aitchison.zc_take_lt pmf j hj h0
+      rw [if_pos h0, if_pos h0, List.getD_eq_getElem?_getD, List.getD_eq_getElem?_getD,
+        List.getElem?_take_of_lt hlt]
+      rfl
+    · rw [if_neg h0, if_neg h0]; rfl
+  · intro h1
+    rw [hsum, h1]; ring
+
+/-- **Replacing zeros gives full support.** If moreover `pmf` is non-negative, the replacement
+values used are strictly positive and their total is below 1, every entry of the result is
+strictly positive. -/
+theorem replaceZeros_pos (pmf repl : List α)
+    (hlen : (pmf.filter (· == 0)).length ≤ repl.length) (hnn : ∀ v ∈ pmf, 0 ≤ v)
+    (hpos : ∀ r ∈ repl.take (pmf.filter (· == 0)).length, 0 < r)
+    (hlt : (repl.take (pmf.filter (· == 0)).length).sum < 1) :
+    ∀ v ∈ replaceZeros pmf repl, 0 < v := by
+  have hul : (repl.take (Lemmas.Aitchison.zc pmf)).length = Lemmas.Aitchison.zc pmf := by
+    rw [List.length_take]; exact Nat.min_eq_left hlen
+  rw [Lemmas.Aitchison.replaceZeros_eq]
+  exact Lemmas.Aitchison.rzSpec_pos _ (sub_pos.mpr hlt) pmf _ (le_of_eq hul.symm) hpos hnn
+
+/-- **Downsampling keeps the length** (for every input). -/
+theorem downsample_len (m : Nat) (pmf : List α) :
+    (downsample (Nat.cast : Nat → α) m pmf).length = pmf.length :=
+  Lemmas.Aitchison.downsampleGo_length m pmf.length pmf 0
+
+/-- **Downsampling lands on the grid.** For `1 ≤ m` and a non-negative `pmf` summing to 1, every
+component of the result — the last one included — is `k/m` for some `k ≤ m`; in particular it is
+non-negative. -/
+theorem downsample_grid (m : Nat) (hm : 1 ≤ m) (pmf : List α) (hnn : ∀ v ∈ pmf, 0 ≤ v)
+    (hsum : pmf.sum = 1) :
+    ∀ v ∈ downsample (Nat.cast : Nat → α) m pmf, ∃ k : Nat, k ≤ m ∧ v = (k : α) / (m : α) := by
+  have := (Lemmas.Aitchison.downsampleGo_spec m hm pmf.length pmf 0 le_rfl (Nat.zero_le _) hnn
+    (by simpa using hsum)).2.1
+  simpa [downsample] using this
+
+/-- **Downsampling keeps the total.** For `1 ≤ m` and a non-negative `pmf` summing to 1, the
+result sums to 1. -/
+theorem downsample_sum_one (m : Nat) (hm : 1 ≤ m) (pmf : List α) (hnn : ∀ v ∈ pmf, 0 ≤ v)
+    (hsum : pmf.sum = 1) : (downsample (Nat.cast : Nat → α) m pmf).sum = 1 := by
+  have := (Lemmas.Aitchison.downsampleGo_spec m hm pmf.length pmf 0 le_rfl (Nat.zero_le _) hnn
+    (by simpa using hsum)).2.2
+  simpa [downsample] using this
+
+end PmfOps
+
+/-! ### Examples (non-vacuity) -/
+
+example : closure [(1 : ℚ), 1, 2] = [1 / 4, 1 / 4, 1 / 2] := by decide +kernel
+example : closure (closure [(1 : ℚ), 1, 2]) = closure [(1 : ℚ), 1, 2] := by decide +kernel
+example : perturbation [(1 : ℚ) / 2, 1 / 4, 1 / 4] [1 / 3, 1 / 3, 1 / 3] = [1 / 2, 1 / 4, 1 / 4] := by
+  decide +kernel
+/-- Hypotheses of the round-trip and isometry theorems: a strictly positive composition. -/
+example : ([1 / 2, 1 / 4, 1 / 4] : List ℝ) ≠ [] ∧ (∀ v ∈ ([1 / 2, 1 / 4, 1 / 4] : List ℝ), 0 < v) ∧
+    ([1 / 2, 1 / 4, 1 / 4] : List ℝ).sum = 1 ∧
+    ([1 / 2, 1 / 4, 1 / 4] : List ℝ).length = ([1 / 3, 1 / 3, 1 / 3] : List ℝ).length := by
+  refine ⟨by simp, ?_, by norm_num, rfl⟩
+  intro v hv
+  simp only [List.mem_cons, List.not_mem_nil, or_false] at hv
+  rcases hv with rfl | rfl | rfl <;> norm_num
+/-- Hypothesis of `clr_clrInv`: a non-trivial vector summing to zero. -/
+example : ([1, -3, 2] : List ℝ).sum = 0 := by norm_num
+/-- Hypotheses of `ubasis_orthonormal`: rows 1 and 2 of `ubasis(2)`. -/
+example : 1 ≤ 1 ∧ 1 ≤ 2 ∧ 1 ≤ 2 ∧ 2 ≤ 2 := by decide
+/-- `convex_spec`: an equal-weight mixture (weights not normalised). -/
+example : convexCombination [[(1 : ℚ), 0], [0, 1]] [2, 2] = [1 / 2, 1 / 2] := by decide +kernel
+/-- `replaceZeros_spec`: two zeros filled, the other entries scaled by `1 − 1/5`. -/
+example : replaceZeros [(1 : ℚ) / 2, 0, 1 / 2, 0] [1 / 10, 1 / 10, 7]
+    = [2 / 5, 1 / 10, 2 / 5, 1 / 10] := by decide +kernel
+/-- `downsample`: snapping to halves and to thirds; the first component is snapped upward and
+the rest rescaled. -/
+example : downsample (Nat.cast : Nat → ℚ) 2 [3 / 10, 3 / 10, 4 / 10] = [1 / 2, 0, 1 / 2] := by
+  decide +kernel
+example : downsample (Nat.cast : Nat → ℚ) 3 [3 / 10, 3 / 10, 4 / 10] = [1 / 3, 1 / 3, 1 / 3] := by
   decide +kernel
 
 end Dit.Props.C20
